@@ -875,6 +875,8 @@ func (x *c01Ctx) siblings() {
 			fmt.Sprintf("the MACed message is not built from the scheme line (%v), the manifest (%v) and line feeds (%v); the README MACs the first two header lines including the trailing newline", hasScheme, hasManifest, hasNL))
 	}
 
+	x.headerSizeLimit()
+
 	// Decrypt verifies the manifest bytes exactly as read
 	dec := p.Func(c01Rel, "Decrypt")
 	rh := p.Func(c01Rel, "readHeader")
@@ -971,21 +973,55 @@ func (x *c01Ctx) headerPushback() {
 					}
 				}
 				copied := false
+				aliasPool := false
 				var lo, hi ssa.Value
+				bufCell := c01BufCell(site.call.Call.Args[0])
+				pooled := c01CellFromPool(bufCell)
+				window := func(v ssa.Value) bool { // v is a window of the header buffer
+					sl, ok := v.(*ssa.Slice)
+					if !ok || c01BufCell(sl) != bufCell {
+						return false
+					}
+					lo, hi = sl.Low, sl.High
+					return true
+				}
 				if surplus != nil {
-					allInstrs(rh, func(in ssa.Instruction) {
-						if c, ok := in.(*ssa.Call); ok && builtinName(c) == "copy" && c.Call.Args[0] == surplus {
-							if sl, ok := c.Call.Args[1].(*ssa.Slice); ok {
+					switch {
+					case window(surplus):
+						// the reader is built over the header buffer itself
+						if pooled {
+							aliasPool = true
+						} else {
+							copied = true // a private buffer may be aliased
+						}
+					default:
+						// fresh memory filled from the window: copy(dst, win) / append(x, win...) / bytes.Clone(win) / slices.Clone(win)
+						allInstrs(rh, func(in ssa.Instruction) {
+							if c, ok := in.(*ssa.Call); ok && builtinName(c) == "copy" && c.Call.Args[0] == surplus && window(c.Call.Args[1]) {
 								copied = true
-								lo, hi = sl.Low, sl.High
+							}
+						})
+						if c, ok := surplus.(*ssa.Call); ok && !copied {
+							switch {
+							case builtinName(c) == "append" && len(c.Call.Args) == 2 && window(c.Call.Args[1]):
+								// appending to a window of the pooled buffer would still alias it
+								if c01BufCell(c.Call.Args[0]) != bufCell {
+									copied = true
+								} else if pooled {
+									aliasPool = true
+								}
+							case (callIs(c, "bytes", "", "Clone") || callIs(c, "slices", "", "Clone")) && len(c.Call.Args) == 1 && window(c.Call.Args[0]):
+								copied = true
 							}
 						}
-					})
+					}
 				}
 				acc := c01AccCore(site.nn)
 				switch {
 				case isOld(elems[0]) || !isOld(elems[1]):
 					r.Violation(c01R7, cons, p.Pos(store.Pos()), "the surplus bytes are not placed in front of the remaining stream (io.MultiReader(surplus, *in)): payload bytes are reordered or dropped")
+				case aliasPool:
+					r.Violation(c01R7, cons, p.Pos(store.Pos()), "the bytes read past the header are pushed back as a reader over the pooled buffer itself, which goes back to BufPool when "+rh.Name()+" returns — before processSegments consumes them: another Encrypt/Decrypt that takes that buffer in between (the window contains the UnwrapKeyFn call) overwrites the beginning of the payload and a valid document fails to decrypt; the pushed-back reader must own a fresh copy (make+copy, append to a new slice, bytes.Clone)")
 				case surplus == nil || !copied:
 					r.Undecide("C01.R7: cannot see the surplus reader being filled from the header buffer in %s", fname)
 				case hi == nil || !acc[hi]:
@@ -1360,4 +1396,168 @@ func (x *c01Ctx) keyNameChoice(cons, pos string, v ssa.Value, choices []c01Choic
 		}
 	}
 	r.Check(bad == "", c01R8, cons, pos, what, what+"; but "+bad+": some KeyName/DecryptionKeyName/OmitKeyName/override combination hands UnwrapKeyFn a key name other than the documented one")
+}
+
+// c01CellFromPool: the local cell holds a buffer obtained from (*sync.Pool).Get.
+func c01CellFromPool(cell ssa.Value) bool {
+	a, ok := cell.(*ssa.Alloc)
+	if !ok {
+		// the buffer value itself (no cell): look at its own cone
+		for _, c := range c01ConeCalls(cell) {
+			if callIs(c, "sync", "Pool", "Get") {
+				return true
+			}
+		}
+		return false
+	}
+	for _, sv := range c01Stores(a) {
+		for _, c := range c01ConeCalls(sv) {
+			if callIs(c, "sync", "Pool", "Get") {
+				return true
+			}
+		}
+	}
+	return false
+}
+
+// headerSizeLimit (R4): the limit SignHeader enforces is applied to the
+// complete header it returns and does not exceed what readHeader scans.
+func (x *c01Ctx) headerSizeLimit() {
+	r, p := x.r, x.p
+	sign := p.Func(c01Rel, "fileKey.SignHeader")
+	rh := p.Func(c01Rel, "readHeader")
+	cons := "SignHeader size limit vs readHeader scan limit"
+	// reader side: the constant end of the window offered to Read
+	var scan int64 = -1
+	for _, sx := range x.collectReads() {
+		if sx.fn != rh {
+			continue
+		}
+		if sl, ok := sx.call.Call.Args[0].(*ssa.Slice); ok && sl.High != nil {
+			if k, ok := c01ConstInt(sl.High); ok {
+				scan = k
+			}
+		}
+	}
+	if scan < 0 {
+		r.Undecide("C01.R4: cannot determine how many bytes readHeader is willing to scan (Read window without constant end)")
+		return
+	}
+	// writer side: success returns
+	n := 0
+	for _, b := range sign.Blocks {
+		if len(b.Instrs) == 0 {
+			continue
+		}
+		ret, ok := b.Instrs[len(b.Instrs)-1].(*ssa.Return)
+		if !ok || len(ret.Results) == 0 || isNilConst(ret.Results[0]) {
+			continue
+		}
+		n++
+		pos := p.Pos(instrPos(ret))
+		root := c01Root(ret.Results[0])
+		var fullLen *c01Lin
+		if ms, ok := root.(*ssa.MakeSlice); ok {
+			l := c01Linear(ms.Len)
+			fullLen = &l
+		}
+		isFull := func(e ssa.Value) bool {
+			if c, ok := e.(*ssa.Call); ok && builtinName(c) == "len" && c01Root(c.Call.Args[0]) == root {
+				return true
+			}
+			return fullLen != nil && fullLen.Base != nil && c01Linear(e) == *fullLen
+		}
+		// parts: values copied / encoded into the output
+		isPart := func(e ssa.Value) bool {
+			c, ok := e.(*ssa.Call)
+			if !ok || builtinName(c) != "len" {
+				return false
+			}
+			return c01Root(c.Call.Args[0]) != root
+		}
+		verdict, why := "", ""
+		for _, dc := range domConds(b) {
+			cmp, ok := decodeCond(dc.If.Cond, dc.Branch)
+			if !ok {
+				continue
+			}
+			e, kv, op := cmp.X, cmp.Y, cmp.Op
+			if _, isK := c01ConstInt(e); isK {
+				e, kv = kv, e
+				switch op {
+				case token.LSS:
+					op = token.GTR
+				case token.GTR:
+					op = token.LSS
+				case token.LEQ:
+					op = token.GEQ
+				case token.GEQ:
+					op = token.LEQ
+				}
+			}
+			k, isK := c01ConstInt(kv)
+			if !isK {
+				continue
+			}
+			switch op {
+			case token.LEQ:
+			case token.LSS:
+				k--
+			default:
+				continue
+			}
+			switch {
+			case isFull(e):
+				if k <= scan {
+					if verdict != "bad-full" {
+						verdict = "ok"
+						why = fmt.Sprintf("complete header limited to %d bytes <= %d scanned by readHeader", k, scan)
+					}
+				} else if verdict != "ok" {
+					verdict, why = "bad-full", fmt.Sprintf("SignHeader lets headers of up to %d bytes through but readHeader only scans the first %d bytes: Encrypt emits documents whose MAC line Decrypt never finds", k, scan)
+				}
+			case isPart(e):
+				// the complete header is strictly longer than any of its parts: a part limit k >= scan
+				// certainly lets an over-long header through; a smaller one cannot be judged
+				if verdict == "" && k < scan {
+					verdict = "part-unknown"
+				}
+				if (verdict == "" || verdict == "part-unknown") && k >= scan {
+					verdict, why = "bad", fmt.Sprintf("the size limit (%d) is applied to only a part of the header (not to the buffer that is returned: message + base64 MAC + final newline); headers of up to %d bytes plus the MAC line pass, but readHeader only scans the first %d bytes, so Encrypt emits documents that Decrypt rejects ('message authentication code not found') instead of refusing them", k, k, scan)
+				}
+			}
+		}
+		switch verdict {
+		case "ok":
+			r.OK(c01R4, cons, pos, why)
+		case "bad", "bad-full":
+			r.Violation(c01R4, cons, pos, why)
+		case "part-unknown":
+			r.Undecide("C01.R4: SignHeader limits only a part of the header to less than readHeader's scan limit; whether the complete header fits is not decided")
+		default:
+			// a limit enforced by the caller on SignHeader's result is a shape this rule does not model
+			inCaller := false
+			for _, fn := range x.fns {
+				for _, ci := range c01CallsTo([]*ssa.Function{fn}, sign) {
+					if call, ok := ci.(*ssa.Call); ok {
+						if res := callResult(call, 0); res != nil {
+							for _, u := range refs(res) {
+								if c, ok := u.(*ssa.Call); ok && builtinName(c) == "len" {
+									inCaller = true
+								}
+							}
+						}
+					}
+				}
+			}
+			if inCaller {
+				r.Undecide("C01.R4: the header size limit seems to be enforced by SignHeader's caller; not modelled")
+			} else {
+				r.Violation(c01R4, cons, pos, fmt.Sprintf("no size limit dominates the return of the signed header, but readHeader only scans the first %d bytes: with a long key name / wrapped key Encrypt emits documents that Decrypt rejects instead of refusing them", scan))
+			}
+		}
+	}
+	if n == 0 {
+		r.Undecide("C01.R4: SignHeader has no return delivering a header")
+	}
 }
